@@ -173,6 +173,7 @@ def run_case(c):
     reads.sort(key=lambda x: -1 if x["after_b"] is None else x["after_b"])
     m = AXIMaster(dut.axi, writes, reads, r, ready_b=c["ready_b"], ready_r=c["ready_r"], long_stall=c["long_stall"],
                   serial_writes=bool(c.get("serial")))
+    m.scramble = r.random() < 0.5        # AW / W / AR payloads are don't-care while their valid is low
     state = {}
     total_r = sum(x["len"] + 1 for x in reads)
 
